@@ -82,12 +82,12 @@ theorem softReject_spec (s : Sess) (sq : Nat) (pre : List Out) (hb : s.buf = [])
     (builtFrame s { m := mkReject s sq }).mtype = .reject ∧
     (softReject s sq pre).1.ns = s.ns + 1 ∧ (softReject s sq pre).1.nr = s.nr + 1 ∧ (softReject s sq pre).1.buf = [] ∧
     (softReject s sq pre).1.shutdown = s.shutdown ∧ (softReject s sq pre).1.started = s.started ∧
-    (softReject s sq pre).1.store = s.store.map (fun st => st.cput (s.ns + 1) s.nr) := by
+    (softReject s sq pre).1.store = s.store.map (fun st => st.cput (s.ns + 1) (s.nr + 1)) := by
   obtain ⟨h1, h2, h3, h4, h5, h6⟩ := sendProcess_plain s { m := mkReject s sq } hb (plain_reject s sq)
-  unfold softReject
+  unfold softReject updatePersist
   simp only []
   refine ⟨by rw [h1], h2, h3, by rw [builtFrame_mtype]; rfl, h4, rfl, h5, rfl, rfl, ?_⟩
-  rw [h6]; simp [mkReject, Sess.fresh]
+  rw [h6, h4]; cases s.store <;> simp [mkReject, Sess.fresh, SpecG.cput, sendProcess_nr]
 
 theorem logoff_spec' (s : Sess) (pre : List Out) (hb : s.buf = []) :
     (logoff s pre).1.shutdown = true ∧ (logoff s pre).1.ns = s.ns ∧ (logoff s pre).1.nr = s.nr ∧ (logoff s pre).1.buf = [] ∧
@@ -152,7 +152,7 @@ theorem process_spec (s : Sess) (scan : Option Nat) (dec : Dec) (hb : s.buf = []
             ((∀ m, dec = .ok m → m.mtype ≠ .resendRequest) → (process s scan dec).1.ns = s.ns + k) ∧
             (∀ st, (process s scan dec).1.store = some st → st.ctrl = some ((process s scan dec).1.ns, (process s scan dec).1.nr))
        | .reject => (process s scan dec).1.ns = s.ns + k ∧ 1 ≤ (process s scan dec).1.nr ∧
-            ∀ st, (process s scan dec).1.store = some st → st.ctrl = some ((process s scan dec).1.ns, (process s scan dec).1.nr - 1)
+            ∀ st, (process s scan dec).1.store = some st → st.ctrl = some ((process s scan dec).1.ns, (process s scan dec).1.nr)
        | .logoffQuiet => k = 0 ∧ (process s scan dec).1.shutdown = true ∧ (process s scan dec).1.ns = s.ns ∧
             (process s scan dec).1.nr = s.nr ∧ (process s scan dec).1.store = s.store
        | .logoffLogout => k = 1 ∧ (process s scan dec).1.shutdown = true ∧ (process s scan dec).1.ns = s.ns ∧
@@ -162,7 +162,7 @@ theorem process_spec (s : Sess) (scan : Option Nat) (dec : Dec) (hb : s.buf = []
       (softReject s1 sq pre).1.buf = [] ∧ Kept s (softReject s1 sq pre).1 ∧
       ∃ k, newSeqs (softReject s1 sq pre).2 = List.range' s.ns k ∧ (softReject s1 sq pre).1.ns = s.ns + k ∧
         1 ≤ (softReject s1 sq pre).1.nr ∧
-        ∀ st, (softReject s1 sq pre).1.store = some st → st.ctrl = some ((softReject s1 sq pre).1.ns, (softReject s1 sq pre).1.nr - 1) := by
+        ∀ st, (softReject s1 sq pre).1.store = some st → st.ctrl = some ((softReject s1 sq pre).1.ns, (softReject s1 sq pre).1.nr) := by
     intro s1 sq pre hns
     obtain ⟨n1, n2, n3, n4⟩ := hns
     obtain ⟨h1, h2, h3, h4, h5, h6, h7, h8, h9, h10⟩ := softReject_spec s1 sq pre n3
